@@ -278,6 +278,29 @@ def op_reject(w, ins):
         w.put_file('bad.p', _pk.dumps(dict(vars=vars_, succ=succ, roots=[3]), protocol=2))
         ok, v = call(w, g.api.load, 'bad.p')
         _after(w, ok, v, 'load of a pickle with an inconsistent node table')
+    elif kind == 'swap_bad':
+        # swap with arguments it must refuse
+        if not raw:
+            return 'skip'
+        order = w.snapshot(m).order or []
+        n = len(order)
+        if n < 1:
+            return 'skip'
+        t = ins.get('t', 0) % 5
+        i = ins.get('pos', 0) % n
+        if t == 0:
+            args = (order[i], order[i])                   # the same variable twice
+        elif t == 1:
+            args = (i, i)                                 # the same level twice
+        elif t == 2 and n >= 3:
+            j = (i + 2) % n
+            args = (min(i, j), max(i, j)) if abs(i - j) != 1 else (order[i], GHOST)
+        elif t == 3:
+            args = (order[i], GHOST)                      # unknown name
+        else:
+            args = (i, n + ins.get('n', 0))               # level out of range
+        ok, v = call(w, g.raw.swap, *args)
+        _after(w, ok, v, f'swap{args}')
     elif kind == 'extension':
         if a is None:
             return 'skip'
@@ -297,7 +320,7 @@ def op_reject(w, ins):
 
 KINDS = ['var', 'let', 'quant', 'cube', 'formula_name', 'formula_syntax', 'formula_node',
          'foreign', 'unknown_node', 'operator', 'arity', 'level', 'order', 'undeclare', 'extension',
-         'load_clash', 'copy_missing_var', 'image_unknown_node', 'load_bad_pickle']
+         'load_clash', 'copy_missing_var', 'image_unknown_node', 'load_bad_pickle', 'swap_bad']
 
 
 def gen_reject(w, r, cfg):
